@@ -118,6 +118,9 @@ Check (C11_stale_timer_cancels_newer_attempt_refuted :
     timers s3 = [0]).
 Check (C11_lazy_no_stuck :
   forall (c : cfg) (cap : nat) (gs : list lop), snd (lrun c cap linit gs) = true).
+Check (C11_lazy_alternation :
+  forall (c : cfg) (cap : nat) (gs : list lop),
+    exists h, grammar (fun _ => false) (levents (fst (lrun c cap linit gs))) = Some h).
 Check (C11_event_channel_no_loss :
   forall (c : cfg) (cap : nat) (gs : list lop),
     ltaken_run c cap linit gs ++ lq (lfinal c cap linit gs) = lemitted_run c cap linit gs).
